@@ -444,7 +444,15 @@ def rule_mean(ctx):
                     res.violate("%s : divisor" % key, "returned score is divided by %s, not by a conversion of the fold count k" % k(div), fn_loc(fn))
                     ok = None
         if ok is False:
-            res.undecided("%s : no-division" % key, "returned value is not `Ok(<accumulator> / k)`: %s" % short(k(rv)), fn_loc(fn))
+            # positive evidence: an Ok(..) is returned and nothing in the function divides (no `/`, `/=`, div, mean): the
+            # sum over the folds is returned as the score
+            divides = [e for e in tr.events if e.kind == "div" or (e.kind == "assignop" and "/" in str(getattr(e, "op", ""))) or (e.kind == "call" and e.name in ("div", "div_assign", "mean", "mean_axis", "recip"))]
+            from .facts import walk as _w
+            divides_hir = [y for y in _w(fn["body"]) if (y.get("k") in ("Binary", "AssignOp") and y.get("op") == "/")]
+            if t is not None and (t.is_call("Ok") or "Ok" in t.op) and not divides and not divides_hir:
+                res.violate("%s : no-division" % key, "cross_validate returns `%s` and divides nowhere: the returned score is the sum over the folds, not their mean" % short(k(rv)), fn_loc(fn))
+            else:
+                res.undecided("%s : no-division" % key, "returned value is not `Ok(<accumulator> / k)`: %s" % short(k(rv)), fn_loc(fn))
         # 2. accumulation sites
         adds = [e for e in tr.events if e.kind == "call" and e.name == "add_assign"]
         eval_calls = [e for e in tr.events if e.kind == "call" and e.callee_local in tr.param_locals and tr.param_locals[e.callee_local] == "eval"]
@@ -650,13 +658,15 @@ def rule_width(ctx):
     names, a cached count) tears samples apart as soon as the two differ.  Path-enumerating influence analysis of the two
     accessors: on every path the returned value depends on the container (or is a constant chosen by its dimensionality)."""
     from .influence import Influence
-    res = RuleResult("R-C01-width", "the row widths used to cut raw buffers (DatasetBase::ntargets, nfeatures) are read from the target / record arrays on every path, never from the name lists")
+    res = RuleResult("R-C01-width", "the counts used to cut raw buffers and to normalise (DatasetBase::ntargets, nfeatures, nsamples) are read from the target / record arrays on every path, never from the name lists or the weights")
     F = ctx.facts()
-    want = {"ntargets": "self.targets", "nfeatures": "self.records"}
+    want = {"ntargets": "self.targets", "nfeatures": "self.records", "nsamples": "self.records"}
     found = 0
     for fn in F.all_fns():
         d = fn["d"]
         if d["krate"] != "linfa" or d["name"] not in want or not (d.get("self_adt") or "").endswith("DatasetBase"):
+            continue
+        if d["name"] == "nsamples" and not (d.get("trait") or "").endswith("Records"):
             continue
         found += 1
         key = fn_key(fn)
